@@ -34,12 +34,12 @@ ASSUMPTIONS = [
 ]
 PROBES = ["faulty_link_before_injection", "failure_frame_destroyed_by_line", "threaded.runs", "threaded.preempted_in_proxy", "kind.error", "kind.rstack", "kind.silent", "kind.lost", "kind.eof", "kind.close", "workload.idle", "workload.one", "workload.queued",
           "workload.reset", "workload.startup", "workload.scan", "reported", "reported_twice", "silent_detected_by_retries", "silent_during_reset_timeout", "silent_but_nak.nak", "silent_but_nak.naklast", "silent_but_chatty",
-          "data_received_raised", "inject_at_timer_deadline", "calls_in_progress_at_injection", "caller_cancelled_after_injection", "failure_before_registration", "second_connection_of_one_ezsp_object", "registry_history.overlap", "registry_history.churn", "registry_history.both", "command_after_report_raised_other_than_ezsp_error", "sched.batch", "sched.reorder", "sched.join"]
+          "data_received_raised", "inject_at_timer_deadline", "calls_in_progress_at_injection", "caller_cancelled_after_injection", "failure_before_registration", "serial_style_transport", "second_connection_of_one_ezsp_object", "registry_history.overlap", "registry_history.churn", "registry_history.both", "command_after_report_raised_other_than_ezsp_error", "sched.batch", "sched.reorder", "sched.join"]
 
 WORKLOADS = ("idle", "one", "queued", "reset", "startup", "scan")
 KINDS = ("error", "rstack", "silent", "lost", "eof", "close")
-ERR_CODES = (0x51, 0x80, 0x02)
-RST_CODES = (0x02, 0x03, 0x00, 0x06, 0x09, 0x80, 0x33, 0x51)
+ERR_CODES = (0x51, 0x85, 0x80, 0x02, 0x00, 0x52)  # (0x85, 0x52: codes that are not named members of bellows' enumeration; 0x00: the falsy one)
+RST_CODES = (0x02, 0x83, 0x03, 0x00, 0x06, 0x09, 0x80, 0x33, 0x51)
 BOUND = 26.5
 
 
@@ -58,7 +58,7 @@ def plan(tier):
         for at in pts:
             for kind in KINDS:
                 if kind == "error":
-                    codes = ERR_CODES[:1] if tier == "quick" else ERR_CODES
+                    codes = ERR_CODES[:2] if tier == "quick" else ERR_CODES
                 elif kind == "rstack":
                     codes = RST_CODES[:2] if tier == "quick" else RST_CODES
                 else:
@@ -72,6 +72,11 @@ def plan(tier):
                     # the same failure after the callback registry went through a history around the application's registration
                     for h in HISTORIES[1:]:
                         sweeps.append(("inject", {"workload": w, "kind": kind, "code": codes[0], "at": at, "sched": False, "hist": h}))
+                if kind in ("error", "rstack") and w in ("idle", "one") and at in pts[1:4]:
+                    # a serial-style transport (an exception out of data_received goes to the loop's exception handler, the port stays open) and
+                    # codes outside bellows' enumeration: the failure is reported by the code path itself, not by a transport that tears down
+                    for c in (ERR_CODES[1], ERR_CODES[5]) if kind == "error" else (RST_CODES[1], RST_CODES[7]):
+                        sweeps.append(("inject", {"workload": w, "kind": kind, "code": c, "at": at, "sched": False, "swallow": True}))
                 if kind != "close" and w in ("idle", "one") and at in pts[1:6:2]:
                     # the same failure on the SECOND connection of one EZSP object (connect, deliberate close, connect again)
                     sweeps.append(("inject", {"workload": w, "kind": kind, "code": codes[0], "at": at, "sched": False, "reconnect": True}))
@@ -116,7 +121,7 @@ def run(scenario, params, tape, detail=False):
         return run_threaded_one(params, tape, detail)
     if scenario == "inject":
         return run_one(params["workload"], params["kind"], params["code"], params["at"], tape, params.get("sched", True), detail, cancel_after=params.get("cancel_after"),
-                       prefail=params.get("prefail", False), rst_delay=params.get("rst_delay", 0.3), hist=params.get("hist"), deaf=params.get("deaf"), reconnect=params.get("reconnect", False))
+                       prefail=params.get("prefail", False), rst_delay=params.get("rst_delay", 0.3), hist=params.get("hist"), deaf=params.get("deaf"), reconnect=params.get("reconnect", False), swallow=params.get("swallow", False))
     w = WORKLOADS[tape.draw(len(WORKLOADS), "workload")]
     kind = KINDS[tape.draw(len(KINDS), "kind")]
     code = None
@@ -140,7 +145,7 @@ CANCEL_AFTER = (0.3, 1.0, 2.5, 6.0, 11.0, 13.0)
 HISTORIES = (None, "overlap", "churn", "both")
 
 
-def run_one(workload, kind, code, at, tape, sched, detail, dry=False, faulty=False, cancel_after=None, prefail=False, rst_delay=0.3, hist=None, deaf=None, reconnect=False):
+def run_one(workload, kind, code, at, tape, sched, detail, dry=False, faulty=False, cancel_after=None, prefail=False, rst_delay=0.3, hist=None, deaf=None, reconnect=False, swallow=False):
     sock = workload == "startup"
     if faulty:
         # link faults (and read chunking, NCP window) until the injection; the failure itself is then delivered over a clean line
@@ -286,6 +291,9 @@ def run_one(workload, kind, code, at, tape, sched, detail, dry=False, faulty=Fal
         else:
             ez.add_callback(cb)
         st["t_plain"] = loop.time()
+        if swallow:
+            probe("serial_style_transport")
+            rig.transport.swallow_protocol_errors = True
         if reconnect and not dry:
             # one EZSP object, two connections: a deliberate close, then connect() and bring-up again on the same object
             probe("second_connection_of_one_ezsp_object")
@@ -461,6 +469,11 @@ def run_one(workload, kind, code, at, tape, sched, detail, dry=False, faulty=Fal
                 # accepted alternative for a silent NCP during a reset handshake: handled below; for the other kinds: violation
                 extra = f"; loop exception handler saw {rig.loop.exceptions[:2]}" if rig.loop.exceptions else ""
                 viol.append(("C10.report", "not-reported", f"{tag}: the application never received a controller-reset request{extra}"))
+            if detected_by is not None and kind != "silent" and rep_after and not pre_closed and rep_after[0][0] > t_inj + 1.0:
+                # an ERROR / RSTACK frame, a read error or an EOF is there for the host to see at once: the request follows it, not some later
+                # consequence of carrying on as if nothing had happened (a command sent into the dead link running out of retries)
+                viol.append(("C10.report", "reported-late", f"{tag}: the controller-reset request came {rep_after[0][0] - t_inj:.3f}s after the failure reached the host "
+                             f"(through {rep_after[0][1]!r}); commands issued meanwhile were written to the port"))
             if kind == "silent" and detected_by is None:  # (the destroyed-frame case above concerns the other kinds)
                 # no DATA frame could exhaust its retries: only legitimate while a reset handshake kept EZSP stopped; the reset call must then time out
                 rc = [c for c in calls if c["name"] in ("reset", "startup_reset")]
